@@ -1,0 +1,481 @@
+// Copyright 2025 Anapaya Systems
+//
+// Licensed under the Apache License, Version 2.0 (the "License");
+// you may not use this file except in compliance with the License.
+// You may obtain a copy of the License at
+//
+//   http://www.apache.org/licenses/LICENSE-2.0
+//
+// Unless required by applicable law or agreed to in writing, software
+// distributed under the License is distributed on an "AS IS" BASIS,
+// WITHOUT WARRANTIES OR CONDITIONS OF ANY KIND, either express or implied.
+// See the License for the specific language governing permissions and
+// limitations under the License.
+
+//! Verification hooks for the path manager (cargo feature `verif-hooks`, default off, add-only).
+//!
+//! Exposes a single per-pair [`PathSet`] that is driven step by step with an injected clock
+//! instead of by its tokio worker, together with read access to the state the worker keeps
+//! private. Every step calls the production code (`PathSet::maintain`,
+//! `PathSet::handle_issue_rx`, `MultiPathManager::{report_path_issue, cached_path, path}`); the
+//! hooks only replace the worker loop's `select!` and `SystemTime::now()`.
+
+use std::{
+    sync::{Arc, Mutex},
+    time::{Duration, SystemTime},
+};
+
+use scc::HashIndex;
+use scion_sdk_utils::backoff::BackoffConfig;
+use sciparse::{
+    identifier::isd_asn::IsdAsn, path::ScionPath, payload::scmp::model::ScmpErrorMessage,
+};
+use tokio::sync::broadcast;
+
+use super::{
+    MultiPathManager, MultiPathManagerConfig, MultiPathManagerInner, PathIssueManager,
+    issues::{IssueKind, IssueMarker, SendError},
+    pathset::{PathSet, PathSetHandle, PathSetTask},
+};
+use crate::{
+    path::{
+        PathStrategy,
+        fetcher::traits::{PathFetchError, PathFetcher},
+        policy::PathPolicy,
+        types::PathManagerPath,
+    },
+    stack::ScionSocketSendError,
+};
+
+/// All fields of [`MultiPathManagerConfig`], public.
+#[derive(Debug, Clone, Copy)]
+pub struct VerifConfig {
+    /// `max_cached_paths_per_pair`
+    pub max_cached_paths_per_pair: usize,
+    /// `refetch_interval`
+    pub refetch_interval: Duration,
+    /// `min_refetch_delay`
+    pub min_refetch_delay: Duration,
+    /// `min_expiry_threshold`
+    pub min_expiry_threshold: Duration,
+    /// `max_idle_period`
+    pub max_idle_period: Duration,
+    /// `fetch_failure_backoff`
+    pub fetch_failure_backoff: BackoffConfig,
+    /// `issue_cache_size`
+    pub issue_cache_size: usize,
+    /// `issue_broadcast_size`
+    pub issue_broadcast_size: usize,
+    /// `issue_deduplication_window`
+    pub issue_deduplication_window: Duration,
+    /// `path_swap_score_threshold`
+    pub path_swap_score_threshold: f32,
+}
+
+impl Default for VerifConfig {
+    fn default() -> Self {
+        let c = MultiPathManagerConfig::default();
+        VerifConfig {
+            max_cached_paths_per_pair: c.max_cached_paths_per_pair,
+            refetch_interval: c.refetch_interval,
+            min_refetch_delay: c.min_refetch_delay,
+            min_expiry_threshold: c.min_expiry_threshold,
+            max_idle_period: c.max_idle_period,
+            fetch_failure_backoff: c.fetch_failure_backoff,
+            issue_cache_size: c.issue_cache_size,
+            issue_broadcast_size: c.issue_broadcast_size,
+            issue_deduplication_window: c.issue_deduplication_window,
+            path_swap_score_threshold: c.path_swap_score_threshold,
+        }
+    }
+}
+
+impl VerifConfig {
+    fn to_config(self) -> MultiPathManagerConfig {
+        MultiPathManagerConfig {
+            max_cached_paths_per_pair: self.max_cached_paths_per_pair,
+            refetch_interval: self.refetch_interval,
+            min_refetch_delay: self.min_refetch_delay,
+            min_expiry_threshold: self.min_expiry_threshold,
+            max_idle_period: self.max_idle_period,
+            fetch_failure_backoff: self.fetch_failure_backoff,
+            issue_cache_size: self.issue_cache_size,
+            issue_broadcast_size: self.issue_broadcast_size,
+            issue_deduplication_window: self.issue_deduplication_window,
+            path_swap_score_threshold: self.path_swap_score_threshold,
+        }
+    }
+
+    /// Result of the production validator `MultiPathManagerConfig::validate`.
+    pub fn validate(&self) -> Result<(), String> {
+        self.to_config().validate().map_err(|e| e.to_string())
+    }
+}
+
+/// One cached path as seen by the worker.
+#[derive(Debug, Clone)]
+pub struct VerifCacheEntry {
+    /// Data-plane fingerprint
+    pub fingerprint: [u8; 32],
+    /// `ScionPath::expiration`
+    pub expiry: Option<u32>,
+    /// Bits of the f32 total score the configured scorer assigns at `now`
+    pub score_bits: u32,
+    /// The cached path
+    pub path: ScionPath,
+}
+
+/// Outcome of reporting an issue to the manager.
+#[derive(Debug, Clone, Copy, PartialEq, Eq)]
+pub struct VerifReport {
+    /// The issue kind maps to a target the path manager handles
+    pub handled: bool,
+    /// Deduplication id (`IssueKind::dedup_id`), 0 if not handled
+    pub dedup_id: u64,
+    /// The issue was broadcast to the path sets (i.e. not dropped as a duplicate)
+    pub broadcast: bool,
+}
+
+/// Classification of `PathSetSyncState::current_error`.
+#[derive(Debug, Clone, Copy, PartialEq, Eq)]
+pub enum VerifFetchError {
+    /// No error recorded
+    None,
+    /// `PathFetchError::NoPathsFound`
+    NoPathsFound,
+    /// Any other fetch error
+    Other,
+}
+
+/// A single (src, dst) path set driven step by step with an injected clock.
+pub struct VerifPathSet<F: PathFetcher> {
+    mgr: MultiPathManager<F>,
+    set: PathSet<F>,
+    /// Copies of the markers that are still queued in the broadcast channel of `set`
+    pending: Vec<IssueMarker>,
+}
+
+impl<F: PathFetcher> VerifPathSet<F> {
+    /// Creates a manager with default scorers, the given policies and fetcher, and one path set
+    /// for (src, dst) whose timers start at `now`. The path set is registered in the manager so
+    /// that `MultiPathManager::{cached_path, path}` observe it; its worker is *not* started.
+    ///
+    /// Must be called inside a tokio runtime. The config is *not* validated here, see
+    /// [`VerifConfig::validate`].
+    pub fn new(
+        src: IsdAsn,
+        dst: IsdAsn,
+        cfg: VerifConfig,
+        fetcher: F,
+        policies: Vec<Arc<dyn PathPolicy>>,
+        now: SystemTime,
+    ) -> Self {
+        let config = cfg.to_config();
+        let mut path_strategy = PathStrategy::default();
+        path_strategy.scoring.use_default_scorers();
+        path_strategy.policies = policies;
+
+        let mgr = MultiPathManager(Arc::new(MultiPathManagerInner {
+            config,
+            fetcher,
+            path_strategy,
+            issue_manager: Mutex::new(PathIssueManager::new(
+                config.issue_cache_size,
+                config.issue_broadcast_size,
+                config.issue_deduplication_window,
+            )),
+            managed_paths: HashIndex::new(),
+        }));
+        let issue_rx = mgr.0.issue_manager.lock().unwrap().issues_subscriber();
+        let set = PathSet::new_with_time(src, dst, mgr.weak_ref(), config, issue_rx, now);
+
+        let cancel_token = tokio_util::sync::CancellationToken::new();
+        let task = {
+            let token = cancel_token.clone();
+            tokio::spawn(async move { token.cancelled().await })
+        };
+        let _ = mgr.0.managed_paths.insert_sync(
+            (src, dst),
+            (
+                PathSetHandle {
+                    shared: set.shared.clone(),
+                },
+                PathSetTask { task, cancel_token },
+            ),
+        );
+
+        VerifPathSet {
+            mgr,
+            set,
+            pending: Vec::new(),
+        }
+    }
+
+    /// The manager owning the path set.
+    pub fn manager(&self) -> &MultiPathManager<F> {
+        &self.mgr
+    }
+
+    fn sync_pending(&mut self) {
+        let queued = self.set.internal.issue_rx.len();
+        if self.pending.len() > queued {
+            let drop_n = self.pending.len() - queued;
+            self.pending.drain(..drop_n);
+        }
+    }
+
+    /// One maintenance tick of the worker at `now` (`PathSet::maintain`).
+    ///
+    /// Returns the exit reason if the worker would stop.
+    pub async fn step_maintain(&mut self, now: SystemTime) -> Option<&'static str> {
+        let mgr = self.mgr.clone();
+        let r = self.set.maintain(now, &mgr).await;
+        self.sync_pending();
+        r
+    }
+
+    fn report(&mut self, timestamp: SystemTime, issue: IssueKind) -> VerifReport {
+        let Some(target) = issue.target_type() else {
+            self.mgr.report_path_issue(timestamp, issue);
+            return VerifReport {
+                handled: false,
+                dedup_id: 0,
+                broadcast: false,
+            };
+        };
+        let dedup_id = issue.dedup_id(&target);
+        let penalty = issue.penalty();
+        let before = self.set.internal.issue_rx.len();
+        let (cache_before, fifo_before) = self.issue_sizes();
+        self.mgr.report_path_issue(timestamp, issue);
+        let after = self.set.internal.issue_rx.len();
+        let (cache_after, fifo_after) = self.issue_sizes();
+        // A broadcast always pushes one FIFO entry; the receiver queue may have lagged instead of
+        // growing.
+        let broadcast = after > before || fifo_after > fifo_before || cache_after > cache_before;
+        if after > before {
+            self.pending.push(IssueMarker {
+                target,
+                timestamp,
+                penalty,
+            });
+        }
+        self.sync_pending();
+        VerifReport {
+            handled: !matches!(
+                target,
+                super::issues::IssueMarkerTarget::DestinationNetwork { .. }
+            ),
+            dedup_id,
+            broadcast,
+        }
+    }
+
+    /// Body of `ScmpErrorReceiver::report_scmp_error` with the timestamp injected.
+    pub fn step_report_scmp(
+        &mut self,
+        timestamp: SystemTime,
+        scmp_error: ScmpErrorMessage,
+    ) -> VerifReport {
+        self.report(timestamp, IssueKind::Scmp { error: scmp_error })
+    }
+
+    /// Body of `SendErrorReceiver::report_send_error` with the timestamp injected.
+    pub fn step_report_send_error(
+        &mut self,
+        timestamp: SystemTime,
+        error: &ScionSocketSendError,
+    ) -> Option<VerifReport> {
+        let send_error = SendError::from_socket_send_error(error)?;
+        Some(self.report(timestamp, IssueKind::Socket { err: send_error }))
+    }
+
+    /// The worker's `issue_rx.recv()` arm at `now`: takes the oldest queued issue notification
+    /// (if any) and runs `PathSet::handle_issue_rx`.
+    ///
+    /// Returns `None` if nothing was queued, otherwise the exit reason of the handler.
+    pub fn step_deliver(&mut self, now: SystemTime) -> Option<Option<&'static str>> {
+        let recv = match self.set.internal.issue_rx.try_recv() {
+            Ok(v) => Ok(v),
+            Err(broadcast::error::TryRecvError::Empty) => return None,
+            Err(broadcast::error::TryRecvError::Lagged(n)) => {
+                Err(broadcast::error::RecvError::Lagged(n))
+            }
+            Err(broadcast::error::TryRecvError::Closed) => Err(broadcast::error::RecvError::Closed),
+        };
+        let mgr = self.mgr.clone();
+        let r = self.set.handle_issue_rx(now, recv, &mgr);
+        self.sync_pending();
+        Some(r)
+    }
+
+    /// `MultiPathManager::cached_path` for the pair at `now`.
+    pub fn send_cached(&self, now: SystemTime) -> Option<ScionPath> {
+        self.mgr.cached_path(self.set.src, self.set.dst, now)
+    }
+
+    /// `MultiPathManager::path` for the pair at `now`.
+    pub async fn send_path(&self, now: SystemTime) -> Result<ScionPath, Arc<PathFetchError>> {
+        self.mgr.path(self.set.src, self.set.dst, now).await
+    }
+
+    /// The configured strategy's policy predicate.
+    pub fn predicate(&self, path: &ScionPath) -> bool {
+        self.mgr.0.path_strategy.predicate(path)
+    }
+
+    fn score_of(&self, entry: &PathManagerPath, now: SystemTime) -> u32 {
+        self.mgr.0.path_strategy.scoring.score(entry, now).to_bits()
+    }
+
+    /// Cached paths in cache order with the score the scorer assigns at `now`.
+    ///
+    /// With `after_pending`, scores are those the entries would have once the issue
+    /// notifications still queued for this path set had been ingested at `now` (what
+    /// `drain_and_apply_issue_channel` does inside a refetch); the cache is not modified.
+    pub fn cache(&self, now: SystemTime, after_pending: bool) -> Vec<VerifCacheEntry> {
+        let mut copies: Vec<PathManagerPath> = self
+            .set
+            .internal
+            .cached_paths
+            .iter()
+            .map(|e| {
+                PathManagerPath {
+                    path: e.path.clone(),
+                    reliability: e.reliability.clone(),
+                }
+            })
+            .collect();
+        if after_pending {
+            for issue in &self.pending {
+                if !issue.target.applies_to_path(self.set.src, self.set.dst) {
+                    continue;
+                }
+                let scan_all = issue.target.applies_to_multiple_paths();
+                for entry in &mut copies {
+                    if issue
+                        .target
+                        .matches_path(&entry.path, &entry.path.fingerprint())
+                    {
+                        entry.reliability.update(issue.penalty, now);
+                        if !scan_all {
+                            break;
+                        }
+                    }
+                }
+            }
+        }
+        copies
+            .into_iter()
+            .map(|e| {
+                let mut fingerprint = [0u8; 32];
+                fingerprint.copy_from_slice(e.path.fingerprint().as_ref());
+                VerifCacheEntry {
+                    fingerprint,
+                    expiry: e.path.expiration(),
+                    score_bits: self.score_of(&e, now),
+                    path: e.path,
+                }
+            })
+            .collect()
+    }
+
+    /// Score bits a freshly fetched `path` would get as a new cache candidate at `now`
+    /// (fresh reliability + cached issues applied, as in `update_path_cache`).
+    pub fn candidate_score_bits(&self, path: &ScionPath, now: SystemTime) -> u32 {
+        let mut entry = PathManagerPath {
+            path: path.clone(),
+            reliability: super::reliability::ReliabilityScore::new_with_time(now),
+        };
+        self.mgr
+            .0
+            .issue_manager
+            .lock()
+            .unwrap()
+            .apply_cached_issues(&mut entry, now);
+        self.score_of(&entry, now)
+    }
+
+    /// Active slot (path and fingerprint).
+    pub fn active(&self) -> Option<(ScionPath, [u8; 32])> {
+        self.set.shared.active_path.load().as_ref().map(|p| {
+            let mut fingerprint = [0u8; 32];
+            fingerprint.copy_from_slice(p.1.as_ref());
+            (p.0.clone(), fingerprint)
+        })
+    }
+
+    /// `PathSetInternal::next_refetch`
+    pub fn next_refetch(&self) -> SystemTime {
+        self.set.internal.next_refetch
+    }
+
+    /// `PathSetInternal::next_idle_check`
+    pub fn next_idle_check(&self) -> SystemTime {
+        self.set.internal.next_idle_check
+    }
+
+    /// `PathSetInternal::failed_attempts`
+    pub fn failed_attempts(&self) -> u32 {
+        self.set.internal.failed_attempts
+    }
+
+    /// `PathSet::next_maintain`
+    pub fn next_maintain(&self, now: SystemTime) -> Duration {
+        self.set.next_maintain(now)
+    }
+
+    /// (`initialized`, fetch ongoing, current error) of the shared sync state.
+    pub fn sync_state(&self) -> (bool, bool, VerifFetchError) {
+        let g = self.set.shared.sync.lock().unwrap();
+        let err = match g.current_error.as_deref() {
+            None => VerifFetchError::None,
+            Some(PathFetchError::NoPathsFound) => VerifFetchError::NoPathsFound,
+            Some(_) => VerifFetchError::Other,
+        };
+        (g.initialized, g.ongoing_start.is_some(), err)
+    }
+
+    /// `was_used_in_idle_period`
+    pub fn was_used(&self) -> bool {
+        self.set
+            .shared
+            .was_used_in_idle_period
+            .load(std::sync::atomic::Ordering::Relaxed)
+    }
+
+    /// (issue cache entries, issue FIFO entries) of the manager's `PathIssueManager`.
+    pub fn issue_sizes(&self) -> (usize, usize) {
+        let g = self.mgr.0.issue_manager.lock().unwrap();
+        (g.cache.len(), g.fifo_issues.len())
+    }
+
+    /// Issue notifications queued for this path set in the broadcast channel.
+    pub fn pending_issues(&self) -> usize {
+        self.set.internal.issue_rx.len()
+    }
+
+    /// `IssueMarkerTarget::matches_path` of the target an SCMP error maps to, if any.
+    pub fn scmp_target_matches(scmp_error: ScmpErrorMessage, path: &ScionPath) -> Option<bool> {
+        let target = IssueKind::Scmp { error: scmp_error }.target_type()?;
+        Some(target.matches_path(path, &path.fingerprint()))
+    }
+
+    /// `IssueMarkerTarget::matches_path` of the target a send error maps to, if any.
+    pub fn send_error_target_matches(
+        error: &ScionSocketSendError,
+        path: &ScionPath,
+    ) -> Option<bool> {
+        let send_error = SendError::from_socket_send_error(error)?;
+        let target = IssueKind::Socket { err: send_error }.target_type()?;
+        Some(target.matches_path(path, &path.fingerprint()))
+    }
+
+    /// Penalty magnitude (f32 bits) the manager assigns to an SCMP error.
+    pub fn scmp_penalty_bits(scmp_error: ScmpErrorMessage) -> u32 {
+        IssueKind::Scmp { error: scmp_error }
+            .penalty()
+            .value()
+            .to_bits()
+    }
+}
